@@ -150,6 +150,20 @@ CLAIMED = {
         "note": "field identities from clang; LATER table: NC_var.len (dead), NC_var.begin (ncmpio_NC_check_voffs).",
         "design_ref": "DESIGN.md section 3 / C19, rule R9a",
     },
+    "C15": {
+        "technique": "fault-style abstract interpretation of every data API wrapper with the validator forced to "
+                     "reject (request-mode bit tracking to the driver call), argument-wiring rule, and enumeration of "
+                     "the orderings distinguished by the pure comparison validator check_EINVALCOORDS",
+        "text": "Decides: each of ~660 public data APIs that take start/count/stride passes its own arguments and the "
+                "right direction constant to check_start_count_stride, and a request the validator rejects reaches "
+                "the driver only with NC_REQ_ZERO set (collective) or not at all (independent); the zero-length path "
+                "transfers (NULL, 0); check_EINVALCOORDS agrees with the documented strict/relaxed rule on every "
+                "ordering of its inputs and its call sites are index-aligned; check_EEDGE agrees with the documented "
+                "rule on a bounded grid (bounded only - it uses arithmetic). Offset arithmetic of accepted requests, "
+                "and the request-merging geometry (seeded change C15_b), are not decided.",
+        "note": "mput/mget examined with nvars >= 1; nprocs > 1 on the collective zero-length branch.",
+        "design_ref": "DESIGN.md section 3 / C15",
+    },
 }
 
 NA_REASON = {
